@@ -8,6 +8,7 @@ import CCVerif.Lemmas.PrintLex2
 import CCVerif.Lemmas.PrintLex3Print
 import CCVerif.Lemmas.ParsePrint3Emb
 import CCVerif.Lemmas.ParsePrint3Decl
+import CCVerif.Lemmas.ParsePrint3Text
 /-!
 # C05 — printing then re-parsing an expression preserves its tree (both syntaxes)
 
@@ -786,5 +787,96 @@ example : sampleTop3.wf = true ∧ wfAst sampleTop3.ast = true ∧
 
 example : parseToks (sampleTop3.toks ++ [tk .END]) = some sampleTop3.ast :=
   parse_print_top_fragment3 sampleTop3 (by decide)
+
+/-! ### top-level forms over `E3` at the level of TEXT (`Lemmas/ParsePrint3Text.lean`) -/
+
+/-- **define_spelling_fragment3** (generated spelling tables and lexer rules, both syntaxes): the spellings of PUNC_DEFINE and
+PUNC_STRUCT (`:==` / `::=`, ` \defexpr ` / ` \deftype `) split into blanks + core + blanks, the core is lexed as its token
+without payload, NO literal of the lexer extends it (or it ends with a blank) — so any body may follow —, and it does not start
+with an alphanumeric unit — so the declared name in front of it ends there. (The MATH lexer reads `:==` as one token by maximal
+munch over `:=` + `=`; that `:=` followed by `=` never occurs inside a phrase is `assign_spelling_fragment3`.) -/
+theorem define_spelling_fragment3 : ∀ syn ∈ PP.synL, ∀ t ∈ PP3.defL, PP.fixedBase syn t = true ∧ PP.freeTok syn t = true ∧
+    (match (str syn t).head? with | some c => !isAlnum syn c | none => false) = true :=
+  CCVerif.PP3.def_table
+
+/-- **lex_print_top_fragment3** (printer and lexer link for the top-level forms): for every well-formed `PP3.Top` term with
+lexer-conformant leaves (`Top.lexOK syn`: declared arguments are local names, the declared name is a global / function /
+predicate name of the lexer of `syn`, leaves of the domains and of the body as `E3.lexOK`) the printer model prints a text —
+`ViGlobalDeclaration`, `ViFunctionDefinition`, `ViArgumentsEnum`, `ViArgument` — and the lexer model reads it back as exactly
+`t.toks` (kinds and payloads) followed by END. -/
+theorem lex_print_top_fragment3 (syn : Syn) (t : PP3.Top) (hw : t.wf = true) (hl : t.lexOK syn = true) :
+    ((print syn t.ast).bind (lex syn)).map (·.map fun t => (t.id, t.data)) =
+      some ((t.toks ++ [tk .END]).map fun t => (t.id, t.data)) := by
+  obtain ⟨hp, hlex⟩ := CCVerif.PP3.lex_print_top syn t hw hl
+  rw [hp]
+  exact hlex
+
+/-- **parse_print_text_top_fragment3** (`parse_print_statement` on the top-level forms over `E3`, at the level of TEXT, both
+syntaxes): if the tree `t` is, up to positions, the tree of a well-formed `PP3.Top` term `d` — a set phrase / formula of `E3`, a
+function definition `[x∈S, …] body`, a global declaration `X1 :== body`, `S1 ::= body`, `F1 :== [x∈S, …] body` or the empty
+declaration `X1 :==` — with lexer-conformant leaves, then print `t`, lex and parse the text: the result is `t` again (up to
+positions). Every link is a theorem: printer = items (`PP3.top_print`), lexer gives `d.toks` (`lex_print_top_fragment3`), parser
+gives the tree (`parse_print_top_fragment3`), positions do not matter (`PE.parseToks_erase`, `PP3.print_erA`), the
+transliteration is the identity (`PP3.translit_top`). -/
+theorem parse_print_text_top_fragment3 (syn : Syn) (t : Ast) (d : PP3.Top) (ht : CCVerif.PE.erA t = d.ast) (hw : d.wf = true)
+    (hl : d.lexOK syn = true) : roundTrips syn t = true := by
+  obtain ⟨text, t', hp, hparse, heq⟩ := CCVerif.PP3.top_text_roundtrip_any syn t d ht hw hl
+  simp [roundTrips, outcome, hp, hparse, heq]
+
+/-- `parse_print_text_fragment3` is the instance `Top.plain (Body.expr e)` -/
+example (syn : Syn) (t : Ast) (e : E3) (ht : CCVerif.PE.erA t = e.ast) (hw : e.wf = true)
+    (hSL : e.isS = true ∨ e.isL = true) (hl : e.lexOK syn = true) : roundTrips syn t = true :=
+  parse_print_text_top_fragment3 syn t (.plain (.expr e)) ht
+    (by simp only [PP3.Top.wf, PP3.Body.wf, hw, Bool.and_true, Bool.or_eq_true]; exact hSL) hl
+
+/-- `F1 :== [a∈ℬ(X1), b∈X1] b∈a` with the argument names as parameters -/
+def sampleTopIn (a b : String) : PP3.Top :=
+  .glob .ID_FUNCTION (.text "F1") .PUNC_DEFINE
+    (.fdef (.more (.text a) (.pow (.atom .ID_GLOBAL (.text "X1"))) (.one (.text b) (.atom .ID_GLOBAL (.text "X1"))))
+      (.pred .IN (.atom .ID_LOCAL (.text b)) (.atom .ID_LOCAL (.text a))))
+
+/-- non-vacuity: `F1 :== [α∈ℬ(X1), β∈X1] β∈α` (Greek argument names) meets the hypotheses for MATH, `F1 :== [a∈ℬ(X1), b∈X1] b∈a`
+for both syntaxes; the trees are ones the grammar produces; the Greek names are outside `lexOK .ascii` -/
+theorem top_text_nonvacuous :
+    (sampleTopIn "α" "β").wf = true ∧ (sampleTopIn "α" "β").lexOK .math = true ∧ (sampleTopIn "α" "β").lexOK .ascii = false ∧
+    (sampleTopIn "a" "b").wf = true ∧ (sampleTopIn "a" "b").lexOK .math = true ∧ (sampleTopIn "a" "b").lexOK .ascii = true ∧
+    wfAst (sampleTopIn "α" "β").ast = true ∧ wfAst sampleTop3.ast = true ∧
+    sampleTop3.lexOK .math = true ∧ sampleTop3.lexOK .ascii = true := by
+  decide +kernel
+
+example : roundTrips .math (sampleTopIn "α" "β").ast = true :=
+  parse_print_text_top_fragment3 .math _ (sampleTopIn "α" "β") (by rfl) top_text_nonvacuous.1 top_text_nonvacuous.2.1
+
+example : ∀ syn ∈ [Syn.math, .ascii], roundTrips syn (sampleTopIn "a" "b").ast = true := by
+  intro syn _
+  have h := top_text_nonvacuous
+  exact parse_print_text_top_fragment3 syn _ (sampleTopIn "a" "b") (by rfl) h.2.2.2.1
+    (by cases syn; exact h.2.2.2.2.1; exact h.2.2.2.2.2.1)
+
+example : ∀ syn ∈ [Syn.math, .ascii], roundTrips syn sampleTop3.ast = true := by
+  intro syn _
+  have h := top_text_nonvacuous
+  exact parse_print_text_top_fragment3 syn _ sampleTop3 (by rfl) (by decide)
+    (by cases syn; exact h.2.2.2.2.2.2.2.2.1; exact h.2.2.2.2.2.2.2.2.2)
+
+/-- the printed texts of the definition with Greek names; in ASCII the names come out transliterated, and the round trip of
+the Greek tree holds there too by kernel evaluation (outside the hypothesis `lexOK .ascii`, inside the property) -/
+example : (print .math (sampleTopIn "α" "β").ast).map (fun u => String.ofList (u.map Char.ofNat)) =
+      some "F1:==[α∈ℬ(X1), β∈X1] β∈α" ∧
+    (print .ascii (sampleTopIn "α" "β").ast).map (fun u => String.ofList (u.map Char.ofNat)) =
+      some "F1 \\defexpr [a \\in B(X1), b \\in X1] b \\in a" ∧
+    roundTrips .ascii (sampleTopIn "α" "β").ast = true := by
+  decide +kernel
+
+/-- with real positions, as the parser delivers it: `X1:==` (empty declaration) and `S1::=ℬ(X1)` -/
+example : ∀ syn ∈ [Syn.math, .ascii],
+    roundTrips syn (.node .PUNC_DEFINE .none 0 5 [.node .ID_GLOBAL (.text "X1") 0 2 []]) = true ∧
+    roundTrips syn (.node .PUNC_STRUCT .none 0 10 [.node .ID_GLOBAL (.text "S1") 0 2 [],
+      .node .BOOLEAN .none 5 10 [.node .ID_GLOBAL (.text "X1") 7 9 []]]) = true := by
+  intro syn _
+  refine ⟨parse_print_text_top_fragment3 syn _ (.globEmpty .ID_GLOBAL (.text "X1"))
+      (by simp [CCVerif.PE.erA, CCVerif.PE.erL, PP3.Top.ast]) (by decide) (by cases syn <;> decide +kernel),
+    parse_print_text_top_fragment3 syn _ (.glob .ID_GLOBAL (.text "S1") .PUNC_STRUCT (.expr (.pow (.atom .ID_GLOBAL (.text "X1")))))
+      (by simp [CCVerif.PE.erA, CCVerif.PE.erL, PP3.Top.ast, PP3.Body.ast, E3.ast]) (by decide) (by cases syn <;> decide +kernel)⟩
 
 end CCVerif.C05
